@@ -54,6 +54,11 @@ pub fn family(th: bool) -> Vec<(String, Envelope)> {
         for (fname, x) in &forms {
             for (subn, sub) in &subjects { if let Ok(e) = sub.add_assertion_envelope(x.clone()) { out.push((format!("special:{sn}/{fname}/on-{subn}"), e.clone())); if *subn == "leaf" { out.push((format!("special:{sn}/{fname}/on-{subn}+p:o"), e.add_assertion("p", "o"))); out.push((format!("special:{sn}/{fname}/twice"), e.add_assertion_envelope(s.clone()).unwrap_or(e.clone()))) } } }
         }
+        // a decorated assertion already on an envelope whose INNER assertion is then obscured (salt + compression / encryption / elision meeting)
+        if let Ok(parent) = base.add_assertion_envelope(dec.clone()) {
+            let inner = bind::dset(&[bind::dg(s)]);
+            for (kind, act) in super::c02::actions() { if let Ok(x) = catch(|| parent.elide_removing_set_with_action(&inner, &act)) { out.push((format!("special:{sn}/decorated-inner-{kind:?}"), x.clone())); out.push((format!("special:{sn}/decorated-inner-{kind:?}+p:o"), x.add_assertion("p", "o"))) } }
+        }
         for (part, d) in [("object", s.as_object().map(|o| bind::dg(&o))), ("predicate", s.as_predicate().map(|o| bind::dg(&o)))] { if let Some(d) = d { let t = bind::dset(&[d]); for (kind, act) in super::c02::actions() { if let Ok(x) = catch(|| s.elide_removing_set_with_action(&t, &act)) { out.push((format!("special:{sn}/{part}-{kind:?}"), base.add_assertion_envelope(x).unwrap())) } } } }
     }
     // leaf payload classes that formatting code treats specially: long text with multi-byte characters at every offset around the truncation
@@ -142,6 +147,7 @@ pub fn ops() -> Vec<Op> {
     op!("add_assertion", |e| { e.add_assertion("p", "o"); }); op!("add_assertion_envelope", |e| { let _ = e.add_assertion_envelope(Envelope::new_assertion("p", "o")); let _ = e.add_assertion_envelope(Envelope::new("notassertion")); let _ = e.add_assertion_envelope(e.clone()); });
     op!("remove_assertion", |e| { e.remove_assertion(Envelope::new_assertion("p", "o")); if let Some(f) = e.assertions().first() { e.remove_assertion(f.clone()); } }); op!("replace_assertion", |e| { let _ = e.replace_assertion(Envelope::new_assertion("p", "o"), Envelope::new_assertion("q", "r")); if let Some(f) = e.assertions().first() { let _ = e.replace_assertion(f.clone(), Envelope::new_assertion("q", "r")); } });
     op!("replace_subject", |e| { e.replace_subject(Envelope::new("s2")); e.replace_subject(Envelope::new("s2").add_assertion("x", "y")); }); op!("add_assertion_salted", |e| { e.add_assertion_salted("p", "o", true); let _ = e.add_assertion_envelope_salted(Envelope::new_assertion("p", "o").elide(), true); }); op!("add_type", |e| { e.add_type("T"); }); op!("add_attachment", |e| { e.add_attachment("pl", "v", None); });
+    op!("re-add own assertions", |e| { let a = e.assertions(); let _ = e.subject().add_assertion_envelopes(&a); e.subject().add_assertions(&a); e.add_assertions(&a); });
     op!("wrap_envelope", |e| { e.wrap_envelope(); }); op!("unwrap_envelope", |e| { let _ = e.unwrap_envelope(); });
     op!("elide", |e| { e.elide(); }); op!("unelide", |e| { let _ = e.unelide(e.clone()); let _ = e.unelide(Envelope::new("zz")); let _ = e.elide().unelide(e.clone()); });
     for (nm, mk) in [("Elide", 0), ("Encrypt", 1), ("Compress", 2)] {
